@@ -1,4 +1,5 @@
 import PdshVerif.Dsh.Signals
+import PdshVerif.Dsh.SignalsOutput
 import Driver.Util
 
 /-! engine `sig`: trace acceptor for the projected traces of the `sched` harness with signals (C20).
@@ -11,14 +12,15 @@ import Driver.Util
                                    unsignalled threads, threads blocked on something else, t[i].state
                                    digits (0 NEW 1 RCMD 2 READING 3 DONE 4 FAILED 5 CANCELED)  -> ok | reject ..
     ev D <createS|lock|wait|wake 0|wake 1|relock|create j|unlock|cancelS|return>
-    ev W<i> <lockT|time|unlockT|connectBegin|connectEnd 0|connectEnd 1|destroyBegin|destroyEnd|lock|signal|unlock>
+    ev W<i> <lockT|lockTF|time|unlockT|connectBegin|connectEnd 0|connectEnd 1|destroyBegin|destroyEnd|lock|signal|unlock>
     ev Z <sigwait int|sigwait tstp|time v|lockT|fwd h|unlockT|lock|unlock|stop|exit c|die>
                                    die: the thread ends on dsh()'s (deferred) cancellation request
     ev E <deliver int|deliver tstp|tick v>                                                -> ok | reject ..
-    obs list <i,j,..|->            hosts named by the listing the implementation just printed
+    obs list <i,j,..|->            hosts named by the listing the implementation printed for the signal just handled
     obs canc <n>                   the number in "Canceled n pending threads"
     obs path <i> <reading|closing> what worker i does after _update_connect_state
-    obs fwds <i,j,..|->            hosts a signal was forwarded to so far               -> ok | reject ..
+    obs fwds <i,j,..|->            hosts a signal was forwarded to so far
+    obs emit <W<i>|Z>              the thread makes a stdio call (fputs) now                -> ok | reject ..
     end <ok|exit c|deadlock|other> ok: dsh() returned; exit c: exit(c) was called; deadlock: nothing enabled
     After a reject every line up to the next `init` answers `skip`.
     The transition function is `PdshVerif.Dsh.Sig.step`, the one the theorems are about. -/
@@ -29,6 +31,10 @@ open PdshVerif.Dsh.Fan (Variant DPC)
 structure Acc where
   st : Option St := none
   dead : Bool := false
+  /-- the signals thread has made the last clock reading of a listing it prints after releasing thd_mutex: the model
+      has it back in sigwait, the implementation still writes the end of the last line (stdio calls the model does not
+      see) — until its next operation it may be runnable although the model has nothing enabled for it -/
+  ztail : Bool := false
 
 def parseW (t : String) : Option Nat :=
   if t.startsWith "W" then (t.drop 1).toNat? else none
@@ -82,6 +88,7 @@ def parseLabel : List String → Option Label
     | some i =>
       match a with
       | "lockT" => some (.w i .lockT)
+      | "lockTF" => some (.w i .lockTF)
       | "time" => some (.w i .time)
       | "unlockT" => some (.w i .unlockT)
       | "connectBegin" => some (.w i .connectBegin)
@@ -116,7 +123,7 @@ def showDPC : DPC → String
 
 def showSPC : SPC → String
   | .off => "off" | .waiting => "waiting" | .intT => "intT" | .intT2 => "intT2" | .listLock => "listLock"
-  | .listing k => s!"listing{k}" | .abLock => "abLock" | .fwding k => s!"fwding{k}" | .exiting => "exiting"
+  | .listing k => s!"listing{k}" | .printing k => s!"printing{k}" | .abLock => "abLock" | .fwding k => s!"fwding{k}" | .exiting => "exiting"
   | .tstpT => "tstpT" | .stopping => "stopping" | .cancLock => "cancLock" | .cancUnlock => "cancUnlock"
   | .cancelled => "cancelled"
 
@@ -149,7 +156,7 @@ def mayRunUnseen (s : St) (n : String) : Bool :=
     | some .started | some .reading | some .closing => true
     | _ => false
 
-def checkSt (s : St) (tc r p x ts : String) : Option String :=
+def checkSt (s : St) (ztail : Bool) (tc r p x ts : String) : Option String :=
   let en := enabledNames s
   let known := fun (n : String) => n = "D" || n = "Z" || n.startsWith "W" || (s.sw && n = "G")
   let rs := (names r).filter known
@@ -158,7 +165,7 @@ def checkSt (s : St) (tc r p x ts : String) : Option String :=
   if tc.toNat? ≠ some s.tc then some s!"threadcount impl={tc} model={s.tc} ({showSt s})"
   else if ts ≠ "-" && ts ≠ showTs s then some s!"t[].state impl={ts} model={showTs s} ({showSt s})"
   else
-    match rs.find? (fun n => !en.contains n && !mayRunUnseen s n) with
+    match rs.find? (fun n => !en.contains n && !mayRunUnseen s n && !(ztail && n == "Z")) with
     | some n => some s!"runnable in the implementation but not enabled in the model: {n} ({showSt s})"
     | none =>
       match en.find? (fun n => !rs.contains n && !(n != "Z" && xs.contains n)) with
@@ -172,10 +179,15 @@ def checkObs (s : St) : List String → Option String
   | ["list", l] =>
     match natList l with
     | some l =>
-      -- sent after every unlock of thd_mutex by Z: after `_list_slowthreads` the hosts listed, after
-      -- `_fwd_signal` nothing may have been listed
-      let want := if s.spc = .waiting then s.listed else []
-      if l = want then none else some s!"listing impl={showNats l} model={showNats want}"
+      -- sent when the signals thread has finished with the signal it took thd_mutex for (before its next sigwait, its
+      -- end, the end of the run): after `_list_slowthreads` the hosts listed — whether the lines were printed with
+      -- the mutex held or from a snapshot after it was released —, after `_fwd_signal` nothing may have been listed;
+      -- a run that ends inside `_list_slowthreads` has printed a prefix
+      let ok := match s.spc with
+        | .waiting => l == s.listed
+        | .listing _ | .printing _ => l.isPrefixOf s.listed
+        | _ => l.isEmpty
+      if ok then none else some s!"listing impl={showNats l} model={showNats s.listed} spc={showSPC s.spc}"
     | none => some "bad obs line"
   | ["canc", n] => if n.toNat? = some s.ncanc then none else some s!"canceled count impl={n} model={s.ncanc}"
   | ["path", i, p] =>
@@ -183,6 +195,18 @@ def checkObs (s : St) : List String → Option String
     | some i =>
       let m := match s.ws[i]? with | some w => showW w | none => "?"
       if m = p then none else some s!"worker {i} after connect: impl={p} model={m}"
+    | none => some "bad obs line"
+  | ["gkill"] =>
+    -- the watchdog interrupts a worker (pthread_kill SIGALRM): only while it holds thd_mutex around that slot
+    match s.gpc with
+    | .inside _ => none
+    | _ => some s!"the watchdog signals a worker without holding thd_mutex ({showSt s})"
+  | ["emit", t] =>
+    -- a stdio call (fputs on stdout / stderr) by thread t: the product model (Dsh/SignalsOutput.lean) says who can be
+    -- inside one: `emits`
+    let who : Option Own := if t = "Z" then some .s else (parseW t).map .w
+    match who with
+    | some o => if emits s o then none else some s!"{t} writes to stdout/stderr where the model has no stdio call ({showSt s})"
     | none => some "bad obs line"
   | ["fwds", l] =>
     match natList l with
@@ -196,13 +220,13 @@ def stepLine (a : Acc) (line : String) : Acc × String :=
     match f.toNat?, n.toNat?, t0.toNat? with
     | some f, some n, some t0 =>
       let v := if v = "if" then Variant.ifWait else Variant.whileWait
-      ({ st := some (init v (g = "guarded") (sw = "stopwdog") f n (b = "1") t0), dead := false }, "ok")
+      ({ st := some (init v (g = "guarded") (sw = "stopwdog") f n (b = "1") t0), dead := false, ztail := false }, "ok")
     | _, _, _ => (a, "bad-line")
   | "st" :: rest =>
     if a.dead then (a, "skip") else
     match a.st, rest with
     | some s, [tc, r, p, x, ts] =>
-      match checkSt s tc r p x ts with
+      match checkSt s a.ztail tc r p x ts with
       | none => (a, "ok")
       | some why => ({ a with dead := true }, "reject " ++ why)
     | _, _ => (a, "bad-line")
@@ -211,7 +235,12 @@ def stepLine (a : Acc) (line : String) : Acc × String :=
     match a.st, parseLabel rest with
     | some s, some l =>
       match step s l with
-      | some s' => ({ a with st := some s' }, "ok")
+      | some s' =>
+        let zt := match l with
+          | .s (.time _) => s.spc == .printing 0
+          | .s _ => false
+          | _ => a.ztail
+        ({ a with st := some s', ztail := zt }, "ok")
       | none => ({ a with dead := true }, s!"reject not enabled in the model: {" ".intercalate rest} ({showSt s})")
     | _, _ => ({ a with dead := true }, "reject unknown event " ++ " ".intercalate rest)
   | "obs" :: rest =>
